@@ -1,17 +1,35 @@
 import ShredModel.Lemmas.Batch
 import ShredModel.Lemmas.Expand
+import ShredModel.Lemmas.NestedTop
 /-!
 # C07 — a batch is isolated as the union of its controller and everything inside it
+
+Two halves.
+
+**The accessor.** What `add_batch` declares for the batch is exactly the controller's declared
+data plus what the systems registered in the inner builder declare (`C07_batch_reads/_writes`),
+so whoever conflicts with something inside conflicts with the batch (`C07_conflict_lifts`).
+
+**The executions, at any nesting depth.** A `Level D` is a built dispatcher whose batches were
+built the same way; `C07_level_of_registrations` obtains one from *every* registration sequence
+run through the tagged five-table builder the driver executes, `C07_body_of_level` turns an
+inner level into the body of a batch (declared with the accessor `add_batch` computes — hypothesis
+`htl`: no thread-local systems inside, the open finding KF1). For every level, every prefix and
+every trace of `dispatch` or `dispatch_seq` — every interleaving — `C07_nested_isolation`,
+`C07_nested_exactly_once`, `C07_nested_order`, `C07_nested_inner_order` hold: outside systems
+never overlap a batch they conflict with (neither its controller's data nor anything inside),
+and inside the batch the inner systems enjoy isolation, ordering and exactly-once on every
+inner dispatch.
 -/
 namespace Shred
 
-/-- **C07 (accessor, reads).** What `add_batch` declares for the batch is *exactly* the
-controller's declared data plus what the systems registered in the inner builder declare. -/
+/-- **C07 (accessor, reads).** -/
 theorem C07_batch_reads {D Dep g z} (h : GoodZ D Dep g z) (inner : DispatcherBuilder)
     (hinner : inner.stagesBuilder = g.b) (ctl : Decl) (x : ResId) :
     x ∈ (DispatcherBuilder.batchDecl inner ctl).reads ↔ x ∈ ctl.reads ∨ ∃ s, s < g.n ∧ x ∈ (D s).reads :=
   batchDecl_reads h inner hinner ctl x
 
+/-- **C07 (accessor, writes).** -/
 theorem C07_batch_writes {D Dep g z} (h : GoodZ D Dep g z) (inner : DispatcherBuilder)
     (hinner : inner.stagesBuilder = g.b) (ctl : Decl) (x : ResId) :
     x ∈ (DispatcherBuilder.batchDecl inner ctl).writes ↔ x ∈ ctl.writes ∨ ∃ s, s < g.n ∧ x ∈ (D s).writes :=
@@ -25,14 +43,68 @@ theorem C07_conflict_lifts {D Dep g z} (h : GoodZ D Dep g z) (inner : Dispatcher
     (conflictsD a ctl → conflictsD a (DispatcherBuilder.batchDecl inner ctl)) :=
   ⟨fun s hs hc => conflict_lifts h inner hinner ctl a s hs hc, conflict_lifts_ctl h inner hinner ctl a⟩
 
-/-- **C07 (nesting).** Replacing every batch leaf of a well-formed outer task by the scope
-around its (well-formed) body keeps the task well-formed — so isolation (C01), ordering (C02,
-C03) and exactly-once (C04) hold for the nested task, at any depth. -/
+/-- **C07 (nesting by expansion).** Replacing every batch leaf of a well-formed outer task by the
+scope around its (well-formed) body keeps the task well-formed. -/
 theorem C07_nested_wf {ι : Type} [DecidableEq ι] {C : ι → ι → Prop} {σ : ι → Option (Task ι)} {t : Task ι}
     (ht : WF C t) (hbody : ∀ s body, σ s = some body → WF C body)
     (hl : ∀ s body, σ s = some body → ∀ x y, y ∈ body.sys → C x s → C x y)
     (hr : ∀ s body, σ s = some body → ∀ x y, y ∈ body.sys → C s x → C y x) :
     WF C (t.expand σ) := wf_expand ht hbody hl hr
+
+/-- **C07 (every registration sequence gives a level).** -/
+theorem C07_level_of_registrations (sc : Scenario) (τ : Nat → SysTag) (D' : SysTag → Decl)
+    (hτ : ∀ i j, i < sc.final.n → j < sc.final.n → τ i = τ j → i = j)
+    (hD : ∀ i, i < sc.final.n → D' (τ i) = sc.D i) (tl : List SysTag) (htl : tl.Nodup)
+    (hfresh : ∀ i, i < sc.final.n → τ i ∉ tl) (bs : List (SysTag × Body)) (hbs : BodiesOK D' bs) :
+    ∃ L : Level D', L.stages = (runOpsT τ sc.ops).1.stages ∧ L.tl = tl ∧ L.bs = bs :=
+  ⟨sc.level τ D' hτ hD tl htl hfresh bs hbs, rfl, rfl, rfl⟩
+
+/-- **C07 (an inner level is a good body for the accessor `add_batch` computes).** -/
+theorem C07_body_of_level (sc : Scenario) (τ : Nat → SysTag) (D' : SysTag → Decl)
+    (hτ : ∀ i j, i < sc.final.n → j < sc.final.n → τ i = τ j → i = j)
+    (hD : ∀ i, i < sc.final.n → D' (τ i) = sc.D i) (bs : List (SysTag × Body)) (hbs : BodiesOK D' bs)
+    (inner : DispatcherBuilder) (hinner : inner.stagesBuilder = (runOpsT τ sc.ops).1) (ctl : Decl)
+    (par : Bool) (n : Nat) :
+    BodyOK D' (batchBody par (runOpsT τ sc.ops).1.stages [] bs n) (DispatcherBuilder.batchDecl inner ctl) :=
+  (sc.level τ D' hτ hD [] List.nodup_nil (fun _ _ h => by cases h) bs hbs).body rfl par n _
+    (sub_batchDecl sc τ D' hD inner hinner ctl)
+
+variable {D : SysTag → Decl} (L : Level D)
+
+/-- **C07 / C01 (isolation at any depth).** At every moment of every execution, two distinct
+instances that are both inside their window are a batch and something inside it, or have
+non-conflicting declared access. -/
+theorem C07_nested_isolation (par : Bool) (pfx : Inst) (l : List (Ev Inst)) (hl : Traces (L.task par pfx) l)
+    (p : List (Ev Inst)) (hp : p <+: l) (x y : Inst) (hxy : x ≠ y) (hx : OpenIn x p) (hy : OpenIn y p) :
+    Anc (L.task par pfx) x y ∨ Anc (L.task par pfx) y x ∨ ¬ conflictsD (D (lastTag x)) (D (lastTag y)) :=
+  traces_isolated (compatI_symm D) hl (L.wf par pfx) (L.nodup par pfx) p hp x y hxy hx hy
+
+/-- **C07 / C04 (exactly once at any depth).** -/
+theorem C07_nested_exactly_once (par : Bool) (pfx : Inst) (l : List (Ev Inst)) (hl : Traces (L.task par pfx) l)
+    (x : Inst) (hx : x ∈ (L.task par pfx).sys) : l.count (Ev.F x) = 1 ∧ l.count (Ev.D x) = 1 :=
+  traces_once hl (L.nodup par pfx) x hx
+
+/-- **C07 / C02 / C03 (order at any depth).** If the layout puts `A` before `B`, everything under
+`A` has dropped its data before anything under `B` begins to fetch. -/
+theorem C07_nested_order (par : Bool) (pfx : Inst) (l : List (Ev Inst)) (hl : Traces (L.task par pfx) l)
+    {A B : SysTag} (hAB : TOrdered L.stages A B) {x y : Inst}
+    (hx : x ∈ (leafOf L.bs pfx A).sys) (hy : y ∈ (leafOf L.bs pfx B).sys)
+    (l1 l2 : List (Ev Inst)) (hsplit : l = l1 ++ Ev.F y :: l2) : Ev.D x ∈ l1 :=
+  traces_before hl (L.nodup par pfx) x y (before_nested_of_ordered par L.tl L.bs pfx hAB hx hy) l1 l2 hsplit
+
+/-- **C07 / C12 (thread-local systems last, at any depth).** -/
+theorem C07_nested_tl_last (par : Bool) (pfx : Inst) (l : List (Ev Inst)) (hl : Traces (L.task par pfx) l)
+    {A u : SysTag} (hA : A ∈ L.stages.flatten.flatten) (hu : u ∈ L.tl) {x : Inst}
+    (hx : x ∈ (leafOf L.bs pfx A).sys)
+    (l1 l2 : List (Ev Inst)) (hsplit : l = l1 ++ Ev.F (pfx ++ [u]) :: l2) : Ev.D x ∈ l1 :=
+  traces_before hl (L.nodup par pfx) x _ (before_nested_tl par L.bs pfx hA hu hx) l1 l2 hsplit
+
+/-- **C07 (the order inside a batch holds in the enclosing dispatcher).** -/
+theorem C07_nested_inner_order (par : Bool) (pfx : Inst) (l : List (Ev Inst)) (hl : Traces (L.task par pfx) l)
+    {t : SysTag} {b : Body} (ht : t ∈ L.stages.flatten.flatten) (hb : findBody L.bs t = some b)
+    {x y : Inst} (hxy : Before (b (pfx ++ [t])) x y)
+    (l1 l2 : List (Ev Inst)) (hsplit : l = l1 ++ Ev.F y :: l2) : Ev.D x ∈ l1 :=
+  traces_before hl (L.nodup par pfx) x y (before_nested_inner par L.tl pfx ht hb hxy) l1 l2 hsplit
 
 end Shred
 
@@ -40,3 +112,10 @@ end Shred
 #print axioms Shred.C07_batch_writes
 #print axioms Shred.C07_conflict_lifts
 #print axioms Shred.C07_nested_wf
+#print axioms Shred.C07_level_of_registrations
+#print axioms Shred.C07_body_of_level
+#print axioms Shred.C07_nested_isolation
+#print axioms Shred.C07_nested_exactly_once
+#print axioms Shred.C07_nested_order
+#print axioms Shred.C07_nested_tl_last
+#print axioms Shred.C07_nested_inner_order
